@@ -87,7 +87,7 @@ class C03(Check):
                 if exc in ('ValueError', 'ZzUnprintable', 'KeyError'):
                     # the same with the library's loggers at DEBUG (what is logged must not change what is answered)
                     out.append({**base, 'logging': 'debug', 'behaviours': beh, 'text': t([{'jsonrpc': '2.0', 'id': 1, 'method': 'boom'}, {'jsonrpc': '2.0', 'method': 'boom2'}])})
-        return out + stdreg.exception_corpus('MARKER-c03-zq')
+        return out + stdreg.exception_corpus('MARKER-c03-zq') + stdreg.rpc_error_corpus()
 
     def run_case(self, spec: Any) -> Outcome:
         obs = sh.observe(spec)
